@@ -2,6 +2,7 @@
 import json
 import os
 import random
+import re
 import shutil
 import subprocess
 
@@ -34,7 +35,8 @@ def variant_case(args):
         ev.pop("stubs", None)
         ev["case"]["name"] = name
         cls = [{"key": kk, "bytes": v[0], "json": v[1], "which": v[2]} for kk, v in sorted(b["classes"].items())]
-        errs = [{"key": e[0], "msg": e[1][:160]} for e in b["errors"]]
+        # "field": the dataclass field the error message names (Field(name='float', ...)), if any -- transported for the KF predicate
+        errs = [{"key": e[0], "msg": e[1][:160], "field": (re.search(r"Field\(name='(\w+)'", e[1]) or [None, ""])[1]} for e in b["errors"]]
         if k == 0:
             base = (b, cls, errs)
         beh = {"options": list(opts), "import": b["import"], "errors": errs, "classes": cls, "pydantic": pyd,
@@ -96,6 +98,7 @@ def run(ctx):
         for ev, b in lst:
             pl.append(ev)
             beh.append(b)
+    pl, beh = protoc.drop_rejected(ctx, pl, beh)
     for b in beh:
         ctx.count_case((repr(sorted(b["case"]["protos"].items())), tuple(b["options"])), b["options"] != ["typing.direct"])
     ctx.sample({"options": beh[3]["options"], "classes": [c["key"] for c in beh[3]["classes"]][:6]})
